@@ -73,8 +73,43 @@ fn origins_of(p: PayloadRef<'_>) -> Option<(String, u8, u32)> {
             format!("{}/{}", o.prefix.addr(), o.prefix.prefix_len()),
             o.prefix.resolved_max_len(), o.asn.into_u32()
         )),
+        // router keys travel in the same item type: ("key:<ski>", 0, asn)
+        PayloadRef::RouterKey(k) => Some((format!("key:{}", k.key_identifier), 0, k.asn.into_u32())),
         _ => None,
     }
+}
+
+/// The router keys that go with a data set in this replay: one per route origin (ASN + 100, key identifier made of
+/// the max length), so that a change of the data set changes origins and router keys alike and a change set has
+/// both sections.
+fn keys_with(set: &BTreeSet<(String, u8, u32)>) -> Vec<(u32, Vec<u8>, Vec<u8>)> {
+    set.iter().map(|(_, m, a)| (a + 100, vec![*m; 20], {
+        // a syntactically valid SubjectPublicKeyInfo is not needed: the key info is opaque bytes for SLURM
+        vec![0xa0 + (*m % 16); 40]
+    })).collect()
+}
+
+/// `concrete` plus the router keys of `keys_with`, in the item form of `origins_of`.
+fn with_keys(set: &BTreeSet<(String, u8, u32)>) -> BTreeSet<(String, u8, u32)> {
+    let mut res = set.clone();
+    for (asn, ski, _) in keys_with(set) {
+        let mut id = [0u8; 20];
+        id.copy_from_slice(&ski);
+        res.insert((format!("key:{}", rpki::crypto::KeyIdentifier::from(id)), 0, asn));
+    }
+    res
+}
+
+fn slurm_with_keys(set: &BTreeSet<(String, u8, u32)>) -> LocalExceptions {
+    let b64 = |b: &[u8]| rpki::util::base64::Slurm.encode(b);
+    let items: Vec<Value> = set.iter().map(|(p, m, a)| json!({"asn": a, "prefix": p, "maxPrefixLength": m})).collect();
+    let keys: Vec<Value> = keys_with(set).iter().map(|(asn, ski, info)| json!({"asn": asn, "SKI": b64(ski), "routerPublicKey": b64(info)})).collect();
+    let doc = json!({
+        "slurmVersion": 1,
+        "validationOutputFilters": {"prefixFilters": [], "bgpsecFilters": []},
+        "locallyAddedAssertions": {"prefixAssertions": items, "bgpsecAssertions": keys}
+    });
+    LocalExceptions::from_json(&doc.to_string(), false).expect("slurm with keys")
 }
 
 pub fn main(args: &Args) -> i32 {
@@ -119,7 +154,7 @@ fn one(rep: &mut Report, b: &Value, args: &Args) {
                 let d = step["arg"].as_i64().unwrap();
                 let set = concrete(d);
                 let report = ValidationReport::new(&cfg);
-                let changed = hist.update(report, &slurm(&set), Metrics::new());
+                let changed = hist.update(report, &slurm_with_keys(&set), Metrics::new());
                 hist.mark_update_done();
                 let serial: u32 = hist.read().serial().into();
                 let really_changed = cur_set.as_ref().map(|c| *c != set);
@@ -231,7 +266,8 @@ fn one(rep: &mut Report, b: &Value, args: &Args) {
                         continue
                     }
                     // exactness
-                    let mut have = concrete(data_at);
+                    let mut have = with_keys(&concrete(data_at));
+                    let cur = &with_keys(cur);
                     let mut ok = true;
                     for (item, ann) in &acts {
                         match item {
